@@ -33,6 +33,7 @@ def main():
             common.prove(ctx, mod.LEAN_MODULE, leanchecker=(a.tier == "thorough" and getattr(mod, "LEANCHECKER", True)))
             common.start_cover(ctx)
             try:
+                common.run_corpus(ctx, mod)
                 mod.run(ctx)
             finally:
                 common.stop_cover(ctx)
